@@ -295,9 +295,11 @@ def cases(task):
     return {"A": cases_A, "B": cases_B, "C": cases_C, "S": cases_S, "D": cases_D, "E": cases_E}[task[0]](task)
 
 
-def with_comments(prog):
-    """source text with one full-line comment in every statement gap (used
-    for the comments-retained configuration)."""
+def with_comments(prog, mode=0):
+    """source text with full-line comments in every statement gap (used for
+    the comments-retained configuration).  mode 0: one comment per gap; mode 1:
+    two comment lines per gap, in every second gap with a blank line between
+    them (runs of kept lines in front of every statement)."""
     ds = G.depths(prog)
     lines = [" ! head"]
     n = 0
@@ -307,6 +309,10 @@ def with_comments(prog):
         lines.append(" " * (1 + 2 * d) + s.line())
         n += 1
         lines.append(" " * (1 + 2 * d) + "! c%d" % n)
+        if mode == 1:
+            if n % 2 == 0:
+                lines.append("")
+            lines.append(" " * (1 + 2 * d) + "! d%d it's" % n)
     return "\n".join(lines) + "\n"
 
 
